@@ -587,7 +587,7 @@ var coreMix = map[string][]int{
 	"reload":    {250, 110, 180, 80, 20, 10, 5, 15, 10, 10, 10, 25, 15, 25, 150, 60, 10},
 	"malformed": {200, 90, 150, 90, 30, 30, 15, 15, 15, 10, 10, 15, 15, 15, 10, 10, 15},
 	"maxapps":   {330, 170, 200, 130, 10, 5, 5, 10, 5, 5, 5, 50, 15, 40, 10, 5, 5},
-	"recover":   {330, 100, 220, 90, 30, 30, 10, 15, 10, 10, 10, 10, 20, 10, 0, 0, 35},
+	"recover":   {330, 100, 220, 90, 30, 30, 10, 15, 10, 10, 10, 10, 20, 10, 0, 0, 55},
 }
 
 func genCoreCase(rng *Rng, maxOps int, variant string) (*CoreCase, error) {
@@ -741,6 +741,46 @@ func genCoreCase(rng *Rng, maxOps int, variant string) (*CoreCase, error) {
 			// resource change of an existing ask/allocation
 			if a := g.pick(g.apps); a != "" && len(g.keys[a]) > 0 {
 				op := CoreOp{Kind: "alloc", App: a, Key: g.pick(g.keys[a]), Res: g.r.res(g.ntypes, 1, 7, true), AgeSec: 3600}
+				if len(c.Steps) > 0 && len(g.nodes) > 0 && rng.Chance(35) {
+					// scripted: a pending ask is placed by the RM (same size), resized in place (with or without the node
+					// named again), and later released or its node removed
+					var pend []ObsAlloc
+					for _, oa := range c.Steps[len(c.Steps)-1].Obs.Apps {
+						for _, x := range oa.Requests {
+							if !x.Allocated && !x.Released && !x.Ph && x.Release == "" && len(x.Res) > 0 {
+								pend = append(pend, x)
+							}
+						}
+					}
+					if len(pend) > 0 {
+						x := pend[rng.Intn(len(pend))]
+						node := g.pick(g.nodes)
+						same := CoreRes{}
+						for k, v := range x.Res {
+							same[k] = v
+						}
+						emit(CoreOp{Kind: "alloc", App: x.App, Key: x.Key, Node: node, Res: same, TaskGroup: x.TaskGroup, AgeSec: 3600})
+						if rng.Chance(30) {
+							emit(CoreOp{Kind: "sched"})
+						}
+						bigger := CoreRes{}
+						for k, v := range x.Res {
+							bigger[k] = max(1, v+int64(rng.Intn(5))-2)
+						}
+						rz := CoreOp{Kind: "alloc", App: x.App, Key: x.Key, Res: bigger, TaskGroup: x.TaskGroup, AgeSec: 3600}
+						if rng.Chance(60) {
+							rz.Node = node
+						}
+						emit(rz)
+						switch rng.Intn(4) {
+						case 0:
+							emit(CoreOp{Kind: "release", App: x.App, Key: x.Key, TType: 1})
+						case 1:
+							emit(CoreOp{Kind: "node_remove", Node: node})
+						}
+						continue
+					}
+				}
 				if lastPlaced[0] != "" && rng.Chance(50) {
 					// follow-up on the key the RM placed last: in-place resize of that allocation
 					op.App, op.Key = lastPlaced[0], lastPlaced[1]
@@ -846,8 +886,8 @@ func genGangDeep(rng *Rng, maxOps int) (*CoreCase, error) {
 	capv := int64(10 + rng.Intn(8))
 	for i := 0; i < nn; i++ {
 		cp := CoreRes{}
-		for t := 0; t < ntypes; t++ {
-			cp[coreTypes[t]] = capv
+		for t := 0; t < len(coreTypes); t++ {
+			cp[coreTypes[t]] = capv // every type: a real ask may name a type its placeholder lacks
 		}
 		g.nextNode++
 		id := fmt.Sprintf("node-%d", g.nextNode)
@@ -900,6 +940,9 @@ func genGangDeep(rng *Rng, maxOps int) (*CoreCase, error) {
 					}
 					if rng.Chance(10) {
 						r[coreTypes[0]] = sizes[tg][coreTypes[0]] + 1 // larger than the placeholder: must cancel it
+					}
+					if ntypes < len(coreTypes) && rng.Chance(12) {
+						r[coreTypes[ntypes]] = 1 // a resource type the placeholder does not define at all: larger as well
 					}
 					emit(CoreOp{Kind: "alloc", App: app, Key: g.newKey(app), Res: r, TaskGroup: tg, AgeSec: 3600, Prio: int32(rng.Intn(3))})
 				}
